@@ -137,6 +137,9 @@ type Scenario struct {
 	// RetryAt > 0: the turnover of epoch RetryAt-1 is first attempted under a context that ends in the middle of it, then
 	// repeated (histories with survival threshold 1, where a failed turnover leaves the population complete)
 	RetryAt int `json:"cancelled_attempt_before_epoch,omitempty"`
+	// Express: before every evaluation each organism's network is requested (Organism.Phenotype) and activated once, as an
+	// evaluator does: the parents of the turnover carry phenotypes with a past
+	Express bool `json:"organisms_expressed_before_evaluation,omitempty"`
 }
 
 type WarmSpec struct {
@@ -174,7 +177,7 @@ func genScenario(cfg ScenarioCfg) *rapid.Generator[Scenario] {
 	if maxHidden == 0 {
 		maxHidden = 2
 	}
-	gg := genGenomeSpec(GenomeCfg{MinGenes: 1, MaxHidden: maxHidden, MaxGenes: 10, ModestWeight: true})
+	gg := genGenomeSpec(GenomeCfg{MinGenes: 1, MaxHidden: maxHidden, MaxGenes: 10, ModestWeight: true, LargeRoom: true})
 	mg := genGenomeSpec(GenomeCfg{MinGenes: 1, MaxHidden: maxHidden, MaxGenes: 10, ModestWeight: true, Modules: true}) // modules listed in ascending order of ids and innovation numbers, as getNextGeneInnovNum assumes
 	if len(cfg.FitnessKinds) == 0 {
 		cfg.FitnessKinds = allFitnessKinds
@@ -241,6 +244,7 @@ func genScenario(cfg ScenarioCfg) *rapid.Generator[Scenario] {
 			sc.RetryAt = 1 + rapid.IntRange(0, sc.Epochs-1).Draw(t, "cancelled attempt at")
 			sc.Opts.SurvivalThresh = 1
 		}
+		sc.Express = rapid.IntRange(0, 2).Draw(t, "organisms expressed") == 0
 		if rapid.IntRange(0, 4).Draw(t, "winner flags") == 0 {
 			sc.Winners = rapid.SampledFrom([]int{1, 2, 3, 7}).Draw(t, "winner one in")
 		}
@@ -527,6 +531,26 @@ func runScenario(sc Scenario, h epochHooks, rec *Rec) error {
 		}
 		if executorPerTurnover && e > 0 {
 			exec = newExecutor(opts)
+		}
+		if sc.Express {
+			for _, o := range pop.Organisms {
+				if net, err := o.Phenotype(); err == nil && net != nil {
+					in := make([]float64, len(net.BaseNodes()))
+					for k := range in {
+						in[k] = 1
+					}
+					sensors := 0
+					for _, nd := range net.BaseNodes() {
+						if nd.IsSensor() {
+							sensors++
+						}
+					}
+					if net.LoadSensors(in[:sensors]) == nil {
+						_, _ = net.ForwardSteps(1)
+					}
+				}
+			}
+			rec.Class("organisms expressed and activated before the evaluation")
 		}
 		n := len(pop.Organisms)
 		for i, o := range pop.Organisms {
